@@ -378,6 +378,27 @@ pub fn run(rep: &'static Report) {
             rep.violation(&format!("very large document ({}) takes more than 60 s", name), &format!("{:?}", t0.elapsed()), || json!({"document": name}));
         }
     }
+    // long expressions (a sweep through the REAL binary, one process per size: a stack overflow is not a
+    // panic and would take this check's process down with it)
+    for n in [100usize, 1000, 5000, 20000] {
+        let doc = format!("import pytest\n\n@pytest.fixture\ndef fx():\n    y = 1{}\n    return y\n\ndef test_t(fx):\n    pass\n", " + 1".repeat(n));
+        let sc = crate::e5::Scratch::new("c11x");
+        let ws = sc.path().join("ws");
+        std::fs::create_dir_all(&ws).unwrap();
+        let mut srv = Server::spawn(&[]);
+        if srv.initialize(Some(&ws)).is_err() || srv.wait_scan_complete().is_err() {
+            rep.machinery_error("C11 long expressions: server did not initialise");
+            continue;
+        }
+        let uri = format!("file://{}/test_long.py", ws.display());
+        srv.did_open(&uri, &doc);
+        let answered = srv.wait_diagnostics(&uri).is_ok() && srv.request("textDocument/documentSymbol", json!({"textDocument": {"uri": uri}})).is_ok();
+        if !answered || !srv.alive() {
+            rep.violation(&format!("the server process dies on a document with a long expression [{} chained operators]", n), &format!("`y = 1 + 1 + …` with {} operators inside a fixture body: no answer after didOpen (process alive: {})", n, srv.alive()), || json!({"chained_operators": n}));
+        }
+        srv.shutdown();
+        crate::report::tick();
+    }
     // group panics by site + operation family
     let hits = hits.into_inner().unwrap();
     let mut by_site: BTreeMap<String, &Hit> = BTreeMap::new();
